@@ -1,9 +1,9 @@
 package main
 
 import (
-	"go/constant"
 	"fmt"
 	"go/ast"
+	"go/constant"
 	"go/token"
 	"go/types"
 	"sort"
@@ -151,12 +151,30 @@ func (in *Interp) resultTypes() []types.Type {
 
 // syncCursors raises a buffer's extent to its cursor position: skipped pad
 // bytes of a pre-sized buffer count as written zeros.
+// noteCursorPath: the offset expression is an integer field of a local object (w.n).
+func (in *Interp) noteCursorPath(st *State, bufID int, e ast.Expr) {
+	se, ok := unparen(e).(*ast.SelectorExpr)
+	if !ok || st.bufs[bufID] == nil {
+		return
+	}
+	if p, t, ok := in.selPath(st, se); ok && t != nil && isIntType(t) && isLocalObj(strings.SplitN(p, ".", 2)[0]) {
+		st.bufs[bufID].CursorPath = p
+	}
+}
+
 func (in *Interp) syncCursors(st *State) {
 	for _, b := range st.bufs {
-		if b.Cursor == nil || b.Origin != "make" {
+		if (b.Cursor == nil && b.CursorPath == "") || b.Origin != "make" {
 			continue
 		}
-		cv, ok := st.vars[b.Cursor].(IntV)
+		var cv IntV
+		var ok bool
+		if b.Cursor != nil {
+			cv, ok = st.vars[b.Cursor].(IntV)
+		}
+		if !ok && b.CursorPath != "" {
+			cv, ok = st.fields[b.CursorPath].(IntV)
+		}
 		if !ok {
 			continue
 		}
@@ -236,6 +254,7 @@ func (in *Interp) assign(st *State, lhs ast.Expr, v Val, tok token.Token, rhs as
 					st.bufs[b.ID].Cursor = o
 				}
 			}
+			in.noteCursorPath(st, b.ID, l.Index)
 			in.site(st, b, "index", b.Off.Add(idx), Const(1), l)
 			bo := st.bufs[b.ID]
 			if bo != nil && (bo.Origin == "field" || bo.Origin == "arg") {
@@ -642,6 +661,7 @@ func (in *Interp) join(cond string, a, b *State) *State {
 		j.Recs = append(j.Recs, bb.Recs[common:]...)
 		if ba.Cursor == nil {
 			j.Cursor = bb.Cursor
+			j.CursorPath = bb.CursorPath
 		}
 		n.bufs[id] = &j
 	}
@@ -1200,6 +1220,13 @@ func (in *Interp) execRange(st *State, x *ast.RangeStmt) (*State, bool) {
 			body.vars[o] = IntV{s}
 		}
 	}
+	// integer fields of local objects the body mentions (a cursor struct: w.n) are loop-carried too
+	fsyms := map[string]*Term{}
+	for _, path := range in.localObjIntFields(body, x.Body) {
+		s := in.freshSym("loop:" + path)
+		fsyms[path] = s
+		body.fields[path] = IntV{s}
+	}
 	bufSyms := map[int]*Term{}
 	bufExt := map[int]*Term{}
 	for id, b := range body.bufs {
@@ -1290,6 +1317,24 @@ func (in *Interp) execRange(st *State, x *ast.RangeStmt) (*State, bool) {
 			lc.Step = d
 		}
 	}
+	for path, s := range fsyms {
+		bv := before.fields[path].(IntV)
+		av, ok := after.fields[path].(IntV)
+		if !ok {
+			res.fields[path] = UnkV{"after-loop:" + path}
+			continue
+		}
+		d := av.T.Sub(s)
+		if d.HasAtom(func(a *Atom) bool { return a.Kind == "opq" && strings.HasPrefix(a.Path, "loop:") }) {
+			in.note(x.Pos(), "loop-carried field %s changes non-additively", path)
+			res.fields[path] = IntV{Opq("after-loop:" + path)}
+			continue
+		}
+		res.fields[path] = IntV{bv.T.Add(in.sumOver(listPath, listLen, elems, d, elemPath))}
+		if lc.Step == nil && !d.IsZero() {
+			lc.Step = d
+		}
+	}
 	for id, s := range bufSyms {
 		ab := after.bufs[id]
 		if ab == nil {
@@ -1340,6 +1385,11 @@ func (in *Interp) execRange(st *State, x *ast.RangeStmt) (*State, bool) {
 						nr.Off = substSym(nr.Off, s, bv.T)
 					}
 				}
+				for path, s := range fsyms {
+					if bv, ok := before.fields[path].(IntV); ok {
+						nr.Off = substSym(nr.Off, s, bv.T)
+					}
+				}
 				step := lc.Step
 				// an offset that is linear in the loop index (data[n+2*i:]) is a cursor that starts at the
 				// index-free part and advances by the coefficient
@@ -1357,6 +1407,9 @@ func (in *Interp) execRange(st *State, x *ast.RangeStmt) (*State, bool) {
 				rb.Recs = append(rb.Recs, &nr)
 			}
 			rb.Cursor = ab.Cursor
+			if ab.CursorPath != "" {
+				rb.CursorPath = ab.CursorPath
+			}
 			// the extent reached by index-addressed writes: the last index is len(list)-1
 			if ab.Extent != nil {
 				if k, ok := ab.Extent.K[idxKey]; ok && k > 0 && listLen != nil {
@@ -1383,12 +1436,42 @@ func (in *Interp) execRange(st *State, x *ast.RangeStmt) (*State, bool) {
 	}
 	// fields strongly updated in the loop body
 	for k, v := range after.fields {
+		if _, done := fsyms[k]; done {
+			continue
+		}
 		if bv, ok := before.fields[k]; !ok || bv.valString() != v.valString() {
 			res.fields[k] = in.loopField(before, k, v, syms, listPath, listLen, elems, elemPath)
 		}
 	}
 	in.syncCursors(res)
 	return res, false
+}
+
+// localObjIntFields: the integer-valued fields, currently known in st, of the local objects (new#k) that
+// the variables mentioned in node n hold.
+func (in *Interp) localObjIntFields(st *State, n ast.Node) []string {
+	objs := map[string]bool{}
+	ast.Inspect(n, func(nd ast.Node) bool {
+		if id, ok := nd.(*ast.Ident); ok {
+			if ov, ok := st.vars[in.obj(id)].(ObjV); ok && isLocalObj(ov.Path) {
+				objs[ov.Path] = true
+			}
+		}
+		return true
+	})
+	var out []string
+	for p, v := range st.fields {
+		if _, isInt := v.(IntV); !isInt {
+			continue
+		}
+		i := strings.Index(p, ".")
+		if i < 0 || !objs[p[:i]] || strings.Contains(p[i+1:], ".") {
+			continue
+		}
+		out = append(out, p)
+	}
+	sort.Strings(out)
+	return out
 }
 
 // loopField summarises a field updated in a range loop: additive integer
@@ -1525,6 +1608,31 @@ func (in *Interp) execFor(st *State, x *ast.ForStmt, label string) (*State, bool
 	lc := &LoopCtx{List: "for@" + in.w.Pos(x.Pos()), ID: in.shared.nextLoop}
 
 	ints, others := in.assignedIn(x)
+	// integer fields of local objects the loop mentions (a cursor struct's offset, r.n) take part as
+	// loop-carried variables: each is lifted into a synthetic variable for the duration of the loop
+	lifted := map[types.Object]string{}
+	for _, path := range in.localObjIntFields(st, x) {
+		fv := in.synthFieldVar(path, st.fields[path])
+		lifted[fv] = path
+		st.vars[fv] = st.fields[path]
+		ints[fv] = true
+	}
+	savedLift := in.liftedPaths
+	in.liftedPaths = map[string]types.Object{}
+	for fv, p := range lifted {
+		in.liftedPaths[p] = fv
+	}
+	defer func() { in.liftedPaths = savedLift }()
+	lift := func(s *State) {
+		if s == nil {
+			return
+		}
+		for fv, p := range lifted {
+			if v, ok := s.fields[p]; ok {
+				s.vars[fv] = v
+			}
+		}
+	}
 	body := st.clone()
 	syms := map[types.Object]*Term{}
 	for o := range ints {
@@ -1532,6 +1640,9 @@ func (in *Interp) execFor(st *State, x *ast.ForStmt, label string) (*State, bool
 			s := in.freshSym("loop:" + o.Name())
 			syms[o] = s
 			body.vars[o] = IntV{s}
+			if p, isField := lifted[o]; isField {
+				body.fields[p] = IntV{s}
+			}
 			// a loop-carried cursor keeps the lower bound it had on entry if it only grows;
 			// recorded as a fact after the body is known (see below)
 		}
@@ -1713,6 +1824,10 @@ func (in *Interp) execFor(st *State, x *ast.ForStmt, label string) (*State, bool
 	in.breaks, in.continues = saveB, saveC
 	in.loops = in.loops[:len(in.loops)-1]
 	lr.HasExit = len(in.Rets) > nrets || len(breaks) > 0 || x.Cond != nil
+	lift(after)
+	for _, b := range breaks {
+		lift(b.st)
+	}
 
 	// progress: per cursor variable, the advance on every path that reaches the back edge
 	var backStates []*State
@@ -1724,6 +1839,7 @@ func (in *Interp) execFor(st *State, x *ast.ForStmt, label string) (*State, bool
 		if x.Post != nil {
 			s, _ = in.exec(s, x.Post)
 		}
+		lift(s)
 		backStates = append(backStates, s)
 	}
 	// verify the hypotheses on every back edge (to a fixpoint: a proof that used a
@@ -1817,12 +1933,12 @@ func (in *Interp) execFor(st *State, x *ast.ForStmt, label string) (*State, bool
 				default:
 					return
 				}
-				isCursor := identObjOf(in, small) == o
+				isCursor := in.cursorObjOf(body, small) == o
 				if !isCursor {
 					if ad, ok := unparen(small).(*ast.BinaryExpr); ok && ad.Op == token.ADD {
-						if c, isC := constIntOf(in.info, ad.Y); isC && c >= 0 && identObjOf(in, ad.X) == o {
+						if c, isC := constIntOf(in.info, ad.Y); isC && c >= 0 && in.cursorObjOf(body, ad.X) == o {
 							isCursor = true
-						} else if c, isC := constIntOf(in.info, ad.X); isC && c >= 0 && identObjOf(in, ad.Y) == o {
+						} else if c, isC := constIntOf(in.info, ad.X); isC && c >= 0 && in.cursorObjOf(body, ad.Y) == o {
 							isCursor = true
 						}
 					}
@@ -1993,11 +2109,49 @@ func (in *Interp) execFor(st *State, x *ast.ForStmt, label string) (*State, bool
 			}
 		}
 	}
+	for fv, p := range lifted {
+		if v, ok := res.vars[fv]; ok {
+			res.fields[p] = v
+		}
+		delete(res.vars, fv)
+		delete(st.vars, fv)
+	}
 	if x.Cond != nil {
 		in.assume(res, x.Cond, false)
 	}
 	in.note(x.Pos(), "general for loop: not summarised for size/record rules")
 	return res, false
+}
+
+// synthFieldVar: the synthetic variable standing for the integer field at path inside for loops.
+func (in *Interp) synthFieldVar(path string, v Val) *types.Var {
+	if in.shared.fieldVars == nil {
+		in.shared.fieldVars = map[string]*types.Var{}
+	}
+	if fv := in.shared.fieldVars[path]; fv != nil {
+		return fv
+	}
+	name := path
+	if i := strings.Index(path, "."); i >= 0 {
+		name = "cursor" + path[i:]
+	}
+	fv := types.NewVar(token.NoPos, nil, name, types.Typ[types.Int])
+	in.shared.fieldVars[path] = fv
+	return fv
+}
+
+// cursorObjOf: the variable an offset expression names — a local, or the synthetic variable of a lifted
+// field of a local object (r.n).
+func (in *Interp) cursorObjOf(st *State, e ast.Expr) types.Object {
+	if o := identObjOf(in, e); o != nil {
+		return o
+	}
+	if se, ok := unparen(e).(*ast.SelectorExpr); ok && in.liftedPaths != nil {
+		if p, _, ok := in.selPath(st, se); ok {
+			return in.liftedPaths[p]
+		}
+	}
+	return nil
 }
 
 // expandFacts expands Len atoms of concrete kinds in every fact.
